@@ -5,6 +5,21 @@ V = Path(__file__).resolve().parents[1]
 props = [json.loads(l) for l in open(V / "properties.jsonl")]
 
 CLAIMED = {
+ "C01": dict(text="Lean theorems (FP/Props/C01.lean) for every satisfying assignment of the DAG path encoding on every well-formed user DAG, any k, any "
+   "additional starts/ends: each layer decodes (the successor-following loop terminates within its fuel) to the empty path (only if allowed) or to a simple "
+   "route of the user's graph from a source/declared start to a sink/declared end, the layer's variables being exactly the path's indicator; the augmentation "
+   "is a well-formed s-t DAG; k layers are returned. Tied to the code by exact-output differential testing of the augmentation order and of get_solution_paths "
+   "on injected assignments (K1), LP-dump equality of the DAG encoders (K2), and an end-to-end route-validity oracle on get_solution() of all 12 exported "
+   "decomposition/cover classes (K5). Walk models: reconstruction proven in C14; walk-encoding soundness is covered by the end-to-end oracle only (partial).",
+   note="HiGHS returns LP-feasible assignments when it reports kOptimal; walk-encoding connectivity argument not yet a theorem; Min* wrappers' forwarding is "
+   "checked by the oracle, not proven.",
+   tech="Lean 4 refinement theorem (LP assignment -> valid route) + differential testing + end-to-end oracle", ref="7/C01"),
+ "C02": dict(text="Lean theorems (FP/Props/C02.lean: kfd_exact, kfd_given_exact): every satisfying assignment of the kFlowDecomp LPs (plain and given-weights) on every "
+   "well-formed user DAG decodes to paths and weights with sum_i w_i*[e in p_i] = f(e) on every non-ignored edge, weights within [0, w_max]; built on the path-encoding "
+   "and product-encoding theorems. Tied to the code by LP-dump equality of kFlowDecomp (K2) and an end-to-end exactness oracle (Fractions for ints, 1e-6 for floats, "
+   "weight types) on the four flow-decomposition classes over the MILP, greedy, given-weights and guessed-weights routes (K5). Cyclic and greedy routes: oracle + K2 only (partial).",
+   note="exactness for float weights is in exact arithmetic; cyclic encoder and greedy peeling not yet proven (C17 covers peeling).",
+   tech="Lean 4 refinement theorem on the LP generator + LP-dump equality + end-to-end oracle", ref="7/C02"),
  "C12": dict(text="Lean theorems (FP/Props/C12.lean): exactness of the binary*continuous and integer*continuous product encodings "
    "(sound and complete, all bounds incl. ub=0 and non powers of two), soundness of the piecewise-constant encoding and its completeness "
    "under the big-M hypothesis (with the negative witness), exact effect of queued bound updates, objective replacement. The model is tied "
